@@ -364,6 +364,7 @@ fn clean_item(it: &mut syn::Item, derive_keep: &[String], subst: &BTreeMap<Strin
 // ---- function transformation
 
 struct Rules {
+    split_map_collect: Option<String>,
     cloned_collect_fn: Option<String>,
     enumerate_fn: Option<String>,
     impl_arg: bool,
@@ -422,6 +423,45 @@ impl<'a> VisitMut for RuleVisitor<'a> {
 
     fn visit_expr_mut(&mut self, e: &mut Expr) {
         visit_mut::visit_expr_mut(self, e);
+        if let Some(elem_ty) = &self.rules.split_map_collect {
+            // E18: `X.split(S).map(|p| BODY).collect::<Vec<_>>()` ==> `{ let mut __vx_v = Vec::new(); for p in vx_split_str(&X, S) { __vx_v.push(BODY); } __vx_v }`
+            // (map/collect over the finite, pure split iterator is the loop that pushes each mapped item in order; vx_split_str is a
+            // trusted prelude function whose body is `s.split(sep).collect()`)
+            let mut repl: Option<Expr> = None;
+            if let Expr::MethodCall(c3) = &*e {
+                if c3.method == "collect" && c3.args.is_empty() {
+                    if let Expr::MethodCall(c2) = &*c3.receiver {
+                        if c2.method == "map" && c2.args.len() == 1 {
+                            if let (Expr::Closure(cl), Expr::MethodCall(c1)) = (&c2.args[0], &*c2.receiver) {
+                                if c1.method == "split" && c1.args.len() == 1 && cl.inputs.len() == 1 {
+                                    let recv = &c1.receiver;
+                                    let sep = &c1.args[0];
+                                    let pat = match &cl.inputs[0] { syn::Pat::Type(pt) => (*pt.pat).clone(), other => other.clone() };
+                                    let body = &cl.body;
+                                    // the element type the compiler infers may be given by the template (`E18=<Type>`): Verus' ghost
+                                    // invariants mention the vector before the first push, where inference has no information yet
+                                    let new_vec: Expr = if elem_ty.is_empty() { parse_quote!(Vec::new()) } else {
+                                        let t: syn::Type = syn::parse_str(elem_ty).unwrap_or(parse_quote!(_));
+                                        parse_quote!(Vec::<#t>::new())
+                                    };
+                                    repl = Some(parse_quote!({
+                                        let mut __vx_v = #new_vec;
+                                        for #pat in vx_split_str(&#recv, #sep) {
+                                            __vx_v.push(#body);
+                                        }
+                                        __vx_v
+                                    }));
+                                }
+                            }
+                        }
+                    }
+                }
+            }
+            if let Some(n) = repl {
+                *e = n;
+                self.applied.bump("E18-split-map-collect-as-loop");
+            }
+        }
         if let Some(fname) = &self.rules.cloned_collect_fn {
             // E17=<f>: `X.iter().cloned().collect()` ==> `<f>(X)` where <f> is a trusted function of the template returning the
             // vector of the items of a dependency-typed collection (here: the keys of the IndexMap-backed precedence order)
@@ -993,6 +1033,7 @@ fn transform_fn(
         .map(|a| a.iter().filter_map(|x| x.as_str().map(String::from)).collect())
         .unwrap_or_default();
     let rules = Rules {
+        split_map_collect: rule_list.iter().find_map(|r| if r == "E18" { Some(String::new()) } else { r.strip_prefix("E18=").map(String::from) }),
         cloned_collect_fn: rule_list.iter().find_map(|r| r.strip_prefix("E17=").map(String::from)),
         enumerate_fn: rule_list.iter().find_map(|r| r.strip_prefix("E16=").map(String::from)),
         impl_arg: rule_list.iter().any(|r| r == "E15"),
